@@ -2,6 +2,8 @@
 // (real unique_lock / shared_lock / QS lock_guard over the instrumented SimMutex).
 #include "../common.hpp"
 #include <algorithm>
+#include <new>
+#include <vector>
 #include "sut.hpp"
 #include <stdio.h>
 #include <string.h>
@@ -11,15 +13,17 @@ using namespace sim;
 
 enum { OP_CS = 0, OP_PEEK, OP_THINK, OP_G, OP_N };
 static const char *op_names[OP_N] = {"cs", "peek", "think", "guard"};
-static const char *go_names[] = {"ctor_lock", "ctor_defer", "ctor_adopt", "ctor_default", "lock", "unlock", "move_ctor", "move_assign", "swap", "destroy", "is_locked", "protects", "guard()", "guard(dont_lock)"};
+static const char *go_names[] = {"ctor_lock", "ctor_defer", "ctor_adopt", "ctor_default", "lock", "unlock", "move_ctor", "move_assign", "swap", "destroy", "is_locked", "protects", "guard()", "guard(dont_lock)", "copy_ctor(+destroy both)", "copy_assign(+destroy both)"};
 enum { CFG_TICKET = 0, CFG_SIMPLE, CFG_GUARDS, CFG_QSGUARD, CFG_N };
-static const char *cfg_names[CFG_N] = {"ticket_spinlock", "simple_spinlock", "unique_lock+shared_lock<SimMutex>", "qs::lock_guard<SimMutex>"};
+static const char *cfg_names[CFG_N] = {"ticket_spinlock", "simple_spinlock", "unique_lock+shared_lock<1-byte proxy of SimMutex>", "qs::lock_guard<1-byte proxy of SimMutex>"};
 
-static int P_is_locked_misreport, P_throwing, P_aged, P_contended, P_cs, P_guard_ops, P_guard_skipped, P_move_onto_owner, P_swap_both, P_handover, P_is_locked_checked, P_blocked_on_guard, P_adopt;
+static int P_is_locked_misreport, P_throwing, P_aged, P_contended, P_cs, P_guard_ops, P_guard_skipped, P_move_onto_owner, P_swap_both, P_handover, P_is_locked_checked, P_blocked_on_guard, P_adopt, P_odd_mutex, P_qs_extra_ops, P_copy_ops;
 
 struct Slot { bool exists = false; int mutex = -1; bool owns = false; };
 
 static bool throw_armed_t[MAXT]; // per task: the next acquisition by that task throws
+struct LockEngine;
+static LockEngine *GL;
 extern "C" int simh_lock_should_throw() { int t = cur_task(); if (throw_armed_t[t]) { throw_armed_t[t] = false; return 1; } return 0; }
 
 struct LockEngine : Engine {
@@ -28,7 +32,12 @@ struct LockEngine : Engine {
 	int in_cs[2]; int holder[2];
 	std::deque<int> tickets[2];
 	bool ticketed[MAXT][2]; int acquiring[MAXT];
-	SimMutex *mtx[2];
+	SimMutex *mtx[2]; char *px[2]; // px: the 1-byte proxy objects the guards see (at odd addresses in some runs)
+	SimMutex *resolve(void *p, const char *what) {
+		for (int i = 0; i < nlocks; i++) if (px[i] == (char *)p) return mtx[i];
+		violation("guard_wrong_object", "a guard called %s() on %p, which is not the address of a mutex it was given (mutexes live at %p%s%p)", what, p, (void *)px[0], nlocks > 1 ? " and " : "", nlocks > 1 ? (void *)px[1] : nullptr);
+		return nullptr;
+	}
 	void *slots[MAXT][4]; Slot model[MAXT][4];
 	char *priv[MAXT];
 	uint64_t cs_entries = 0;
@@ -38,6 +47,8 @@ struct LockEngine : Engine {
 		P_guard_skipped = probe_id("guard_ops_skipped_precondition"); P_move_onto_owner = probe_id("move_assign_onto_owning_guard");
 		P_swap_both = probe_id("swap_two_owning_guards"); P_handover = probe_id("lock_handover_between_tasks");
 		P_is_locked_checked = probe_id("is_locked_checked_by_holder"); P_blocked_on_guard = probe_id("guard_ctor_contended"); P_adopt = probe_id("adopt_lock");
+		P_odd_mutex = probe_id("guard_runs_with_mutex_at_odd_address"); P_qs_extra_ops = probe_id("qs_lock_guard_offers_move/copy/swap(op_executed)"); P_copy_ops = probe_id("guard_copy_ops_executed(type_is_copyable)");
+		GL = this;
 	}
 	const char *name() override { return "simlock"; }
 	const char *op_name(int k) override { return k >= 0 && k < OP_N ? op_names[k] : "?"; }
@@ -46,8 +57,8 @@ struct LockEngine : Engine {
 	const char *property_of(const std::string &, const std::string &) override { return "C12"; }
 	void describe(std::map<std::string, std::string> &kv) override {
 		kv["real_code"] = "frg::ticket_spinlock, frg::simple_spinlock, frg::unique_lock, frg::shared_lock, frg::lock_guard (qs.hpp) — unmodified headers, TSan-ABI instrumented";
-		kv["stubs"] = "SimMutex (scheduler-level mutex with owner/kind accounting) under the guards; critical-section body and scripts are harness code";
-		kv["guard_op_codes"] = "0 ctor_lock,1 ctor_defer,2 ctor_adopt,3 ctor_default,4 lock,5 unlock,6 move_ctor,7 move_assign,8 swap,9 destroy,10 is_locked,11 protects,12 frg::guard(m),13 frg::guard(dont_lock,m)";
+		kv["stubs"] = "SimMutex (scheduler-level mutex with owner/kind accounting) behind a 1-byte alignment-1 proxy mutex type under the guards; critical-section body and scripts are harness code";
+		kv["guard_op_codes"] = "0 ctor_lock,1 ctor_defer,2 ctor_adopt,3 ctor_default,4 lock,5 unlock,6 move_ctor,7 move_assign,8 swap,9 destroy,10 is_locked,11 protects,12 frg::guard(m),13 frg::guard(dont_lock,m),14 copy-construct then destroy both,15 copy-assign then destroy both (14/15 and, for the QS guard, 6-8 only if the type offers them)";
 	}
 
 	void generate(Rng &rng, Plan &p, const std::string &profile, int tier) override {
@@ -81,10 +92,15 @@ struct LockEngine : Engine {
 				for (int i = 0; i < n; i++) {
 					Op o; o.task = t; o.id = i; o.kind = OP_G;
 					if (p.cfg == CFG_QSGUARD) {
+						// every operation the QS guard of this tree offers (at HEAD: construct locked, lock, unlock, destroy)
 						static const int ops[] = {GO_CTOR_LOCK, GO_CTOR_LOCK, GO_LOCK, GO_UNLOCK, GO_UNLOCK, GO_DESTROY};
-						o.a[0] = ops[rng.below(6)]; o.a[1] = rng.below(2); o.a[2] = 0; o.a[3] = rng.below(nm);
+						static const int extra[] = {GO_CTOR_DEFER, GO_CTOR_ADOPT, GO_CTOR_DEFAULT, GO_MOVE_CTOR, GO_MOVE_ASSIGN, GO_SWAP, GO_COPY_CTOR, GO_COPY_ASSIGN, GO_IS_LOCKED, GO_PROTECTS};
+						std::vector<int> av(ops, ops + 6);
+						for (int x : extra) if (sut_guard_has(GT_QS, x)) { av.push_back(x); av.push_back(x); }
+						o.a[0] = av[rng.below(av.size())]; o.a[1] = rng.below(2); o.a[2] = rng.below(2); o.a[3] = rng.below(nm);
+						if ((o.a[0] == GO_CTOR_LOCK || o.a[0] == GO_LOCK) && rng.chance(1, 8)) o.a[3] += 16;
 					} else {
-						o.a[0] = rng.below(14);
+						o.a[0] = rng.below(16); // (copy ops 14/15 are skipped unless the guard type is copyable)
 						int ty = (int)rng.below(2); // 0: unique slots 0,1 ; 1: shared slots 2,3
 						o.a[1] = ty * 2 + rng.below(2); o.a[2] = ty * 2 + rng.below(2); o.a[3] = rng.below(nm);
 						if ((o.a[0] == GO_CTOR_LOCK || o.a[0] == GO_LOCK) && rng.chance(1, 6)) o.a[3] += 16; // this acquisition fails: the mutex's lock() throws
@@ -92,6 +108,7 @@ struct LockEngine : Engine {
 					p.ops.push_back(o);
 				}
 			}
+			if (rng.chance(1, 2)) p.knobs["odd"] = 1; // mutex objects at odd addresses
 			pick_strategy(rng, p, false);
 			if (p.ntasks > 1 && p.strat == S_PCT) { p.strat = S_RAND; p.strat_arg = 3; }
 		}
@@ -122,7 +139,8 @@ struct LockEngine : Engine {
 			}
 		} else {
 			nlocks = (int)p.knob("nmutex", 1);
-			for (int i = 0; i < nlocks; i++) { mtx[i] = (SimMutex *)obj_alloc(sizeof(SimMutex), 64); sut_mutex_construct(mtx[i]); }
+			bool odd = p.knob("odd", 0) != 0; if (odd) probe(P_odd_mutex);
+			for (int i = 0; i < nlocks; i++) { mtx[i] = new (obj_alloc(sizeof(SimMutex), 64)) SimMutex(); px[i] = (char *)obj_alloc(16, 16) + (odd ? 1 + 2 * i : 8 * i); }
 			for (int t = 1; t <= p.ntasks; t++) for (int s = 0; s < 4; s++) slots[t][s] = obj_alloc(32, 16);
 		}
 	}
@@ -195,10 +213,13 @@ struct LockEngine : Engine {
 
 	void guard(int me, const Op &o) {
 		int gop = (int)o.a[0], a = (int)(o.a[1] & 3), b = (int)(o.a[2] & 3), m = (int)((o.a[3] & 15) % nlocks);
-		bool thr = (o.a[3] & 16) != 0 && cfg == CFG_GUARDS;
+		bool thr = (o.a[3] & 16) != 0;
 		int gt = cfg == CFG_QSGUARD ? GT_QS : (a >= 2 ? GT_SHARED : GT_UNIQUE);
-		if (cfg == CFG_QSGUARD) { a &= 1; b = a; if (gop != GO_CTOR_LOCK && gop != GO_LOCK && gop != GO_UNLOCK && gop != GO_DESTROY) { probe(P_guard_skipped); return; } }
+		if (gop < 0 || gop >= GO_N) { probe(P_guard_skipped); return; }
+		if (cfg == CFG_QSGUARD) { a &= 1; b &= 1; }
 		else if ((a >= 2) != (b >= 2)) b = a;
+		if (!sut_guard_has(gt, gop)) { probe(P_guard_skipped); return; } // the guard type of this tree does not offer the operation
+		if (cfg == CFG_QSGUARD && gop != GO_CTOR_LOCK && gop != GO_LOCK && gop != GO_UNLOCK && gop != GO_DESTROY) probe(P_qs_extra_ops);
 		if (gop == GO_GUARD_LOCK || gop == GO_GUARD_DEFER) { if (cfg != CFG_GUARDS) { probe(P_guard_skipped); return; } if (a >= 2) a -= 2; b = a; gt = GT_UNIQUE; }
 		Slot &A = model[me][a], &B = model[me][b];
 		bool ok = true;
@@ -211,6 +232,8 @@ struct LockEngine : Engine {
 		case GO_MOVE_CTOR: ok = !A.exists && B.exists && a != b; break;
 		case GO_MOVE_ASSIGN: ok = A.exists && B.exists && a != b; break;
 		case GO_SWAP: ok = A.exists && B.exists; break;
+		case GO_COPY_CTOR: ok = !A.exists && B.exists && a != b; break;
+		case GO_COPY_ASSIGN: ok = A.exists && !A.owns && B.exists && a != b; break;
 		case GO_DESTROY: case GO_IS_LOCKED: case GO_PROTECTS: ok = A.exists; break;
 		default: ok = false;
 		}
@@ -222,26 +245,26 @@ struct LockEngine : Engine {
 		case GO_CTOR_LOCK:
 			if (thr) { // constructor throws: no guard object comes into existence, nothing may be held
 				probe(P_throwing); throw_armed_t[me] = true;
-				int rc = sut_guard_op(gt, gop, slots[me][a], nullptr, mtx[m]); throw_armed_t[me] = false;
+				int rc = sut_guard_op(gt, gop, slots[me][a], nullptr, px[m]); throw_armed_t[me] = false;
 				if (rc != -77) violation("guard_state", "locking constructor returned normally although the mutex's lock() threw");
 				break;
 			}
 			if (mtx[m]->owner >= 0 && mtx[m]->owner != me) probe(P_blocked_on_guard);
-			sut_guard_op(gt, gop, slots[me][a], nullptr, mtx[m]); A = {true, m, true}; break;
-		case GO_GUARD_LOCK: sut_guard_op(gt, gop, slots[me][a], nullptr, mtx[m]); A = {true, m, true}; break;
+			sut_guard_op(gt, gop, slots[me][a], nullptr, px[m]); A = {true, m, true}; break;
+		case GO_GUARD_LOCK: sut_guard_op(gt, gop, slots[me][a], nullptr, px[m]); A = {true, m, true}; break;
 		case GO_GUARD_DEFER:
-		case GO_CTOR_DEFER: sut_guard_op(gt, gop, slots[me][a], nullptr, mtx[m]); A = {true, m, false}; break;
+		case GO_CTOR_DEFER: sut_guard_op(gt, gop, slots[me][a], nullptr, px[m]); A = {true, m, false}; break;
 		case GO_CTOR_ADOPT:
 			probe(P_adopt);
 			if (gt == GT_SHARED) mtx[m]->lock_shared(); else mtx[m]->lock();
-			sut_guard_op(gt, gop, slots[me][a], nullptr, mtx[m]); A = {true, m, true}; break;
+			sut_guard_op(gt, gop, slots[me][a], nullptr, px[m]); A = {true, m, true}; break;
 		case GO_CTOR_DEFAULT: sut_guard_op(gt, gop, slots[me][a], nullptr, nullptr); A = {true, -1, false}; break;
 		case GO_LOCK:
 			if (thr) { // lock() of the mutex throws: the guard must still say (and behave as if) it does not own the lock
 				probe(P_throwing); throw_armed_t[me] = true;
 				int rc = sut_guard_op(gt, gop, slots[me][a], nullptr, nullptr); throw_armed_t[me] = false;
 				if (rc != -77) violation("guard_state", "guard.lock() returned normally although the mutex's lock() threw");
-				if (sut_guard_op(gt, GO_IS_LOCKED, slots[me][a], nullptr, nullptr)) violation("guard_state", "guard.lock() failed with an exception but is_locked() is true");
+				if (sut_guard_has(gt, GO_IS_LOCKED) && sut_guard_op(gt, GO_IS_LOCKED, slots[me][a], nullptr, nullptr)) violation("guard_state", "guard.lock() failed with an exception but is_locked() is true");
 				break;
 			}
 			sut_guard_op(gt, gop, slots[me][a], nullptr, nullptr); A.owns = true; break;
@@ -254,12 +277,20 @@ struct LockEngine : Engine {
 			if (A.owns && B.owns && a != b) probe(P_swap_both);
 			sut_guard_op(gt, gop, slots[me][a], slots[me][b], nullptr); if (a != b) std::swap(A, B); break;
 		case GO_DESTROY: sut_guard_op(gt, gop, slots[me][a], nullptr, nullptr); A = Slot(); break;
+		case GO_COPY_CTOR: case GO_COPY_ASSIGN:
+			// A copyable guard: whatever a copy means for the type, the two objects together must release what the source
+			// owned exactly once. Copy, then destroy both at once, and let the balance check judge.
+			probe(P_copy_ops);
+			sut_guard_op(gt, gop, slots[me][a], slots[me][b], nullptr);
+			sut_guard_op(gt, GO_DESTROY, slots[me][a], nullptr, nullptr);
+			sut_guard_op(gt, GO_DESTROY, slots[me][b], nullptr, nullptr);
+			A = Slot(); B = Slot(); break;
 		case GO_IS_LOCKED:
 			ret = sut_guard_op(gt, gop, slots[me][a], nullptr, nullptr);
 			if ((ret != 0) != A.owns) violation("guard_state", "is_locked() = %d but the guard %s the lock", ret, A.owns ? "owns" : "does not own");
 			break;
 		case GO_PROTECTS:
-			ret = sut_guard_op(gt, gop, slots[me][a], nullptr, mtx[m]);
+			ret = sut_guard_op(gt, gop, slots[me][a], nullptr, px[m]);
 			if ((ret != 0) != (A.owns && A.mutex == m)) violation("guard_state", "protects(mutex %d) = %d but guard owns=%d mutex=%d", m, ret, A.owns, A.mutex);
 			break;
 		}
@@ -327,4 +358,8 @@ struct LockEngine : Engine {
 	}
 };
 
+extern "C" void simh_px_lock(void *p) { GL->resolve(p, "lock")->lock(); }
+extern "C" void simh_px_unlock(void *p) { GL->resolve(p, "unlock")->unlock(); }
+extern "C" void simh_px_lock_shared(void *p) { GL->resolve(p, "lock_shared")->lock_shared(); }
+extern "C" void simh_px_unlock_shared(void *p) { GL->resolve(p, "unlock_shared")->unlock_shared(); }
 Engine *sim::make_engine() { return new LockEngine(); }
